@@ -234,6 +234,8 @@ def run(chk, replay=None):
     # the universe TLC enumerates for Amplitude_MC (three final states, spins <= 1, every tree, eta = +-1, full helicity sets):
     # exhaustive in the thorough tier, every 12th reaction in the quick tier
     ucases = ampl_run.universe_cases(chk, stride=1 if tier == "thorough" else 12, offset=0, which={"formula"})
+    # ... and four final states (all 15 trees, spins 0 and 1/2, eta = +-1 at the three nodes: 1920 reactions)
+    ucases += ampl_run.universe_cases(chk, stride=4 if tier == "thorough" else 80, offset=0, which={"formula"}, maxspin2=1, nfs=4, name="universe4")
     for label, reaction, cfg, model, rec in ucases:
         if model is None:
             chk.violation(f"formulate-raises:{rec['error'].split(':')[0]}:universe", f"formulate() failed for {label}: {rec['error']}", {"label": label})
@@ -249,7 +251,7 @@ def run(chk, replay=None):
         # design level: the term generator is internally consistent on every reaction of the (smaller) universe
         from .. import tlc as _tlc
 
-        resu = _tlc.run("Amplitude_MC", ampl_run.UNIVERSE_CFG.format(maxspin2=1, etas="EtaGiven", invariants=ampl_run.UNIVERSE_INVARIANTS), workers=2, timeout=2400)
+        resu = _tlc.run("Amplitude_MC", ampl_run.UNIVERSE_CFG.format(maxspin2=1, etas="EtaGiven", leafs="{0, 1, 2}", invariants=ampl_run.UNIVERSE_INVARIANTS), workers=2, timeout=2400)
         chk.add_tlc("amplitude_generator_invariants", resu)
         if not resu.ok:
             raise Machinery(f"Amplitude.tla violates its own consistency invariants on the universe: {resu.violated}")
